@@ -144,7 +144,7 @@ const ATTR_Y: &str = "y";
 #[derive(Default)]
 pub struct ModelParser {}
 
-/// The deepest nesting of XML elements in which a boxed expression is still parsed.
+/// The deepest nesting of XML elements in which a boxed expression or an item component is still parsed.
 const MAX_NESTING_DEPTH: usize = 256;
 
 impl ModelParser {
@@ -187,6 +187,10 @@ impl ModelParser {
   }
   /// Parser a collection of [ItemDefinition].
   fn parse_item_definitions(&mut self, node: &Node, child_name: &str) -> Result<Vec<ItemDefinition>> {
+    // item components are parsed (and later built) by recursive descent, like boxed expressions
+    if node.ancestors().count() > MAX_NESTING_DEPTH {
+      return Err(xml_nesting_too_deep(MAX_NESTING_DEPTH));
+    }
     let mut items = vec![];
     for ref child_node in node.children().filter(|n| n.tag_name().name() == child_name) {
       let type_ref = optional_child_required_content(child_node, NODE_TYPE_REF)?;
